@@ -7,7 +7,7 @@ ref/sysv_ref_selftest.py, which setup_cmd runs)."""
 import os
 from vlib import Ob, run_all, REPO
 
-F_BF, F_SUBARR = 1, 2
+F_BF, F_SUBARR, F_DEEP = 1, 2, 4
 ARITH, PTR, ENUM, NESTED, ANON, NESTED_U, ANON_U, ARR = 0, 1, 2, 3, 4, 5, 6, 8
 AGGR = (NESTED, ANON, NESTED_U, ANON_U)
 CLS_NAME = {ARITH: "T", PTR: "P", ENUM: "E", NESTED: "S", ANON: "As", NESTED_U: "U", ANON_U: "Au"}
@@ -28,12 +28,13 @@ KC_DESC = {KC_ANY: "any arithmetic type", KC_C: "char/signed char/unsigned char"
 
 def loops(n, nsub, scan):
     m = n + 1
-    return {"h_build_graph#0": m, "h_build_graph#1": nsub + 1, "h_nd_description#0": m, "h_nd_description#1": nsub + 1, "h_nd_description#2": m,
-            "h_mk_aggr#0": m, "h_mk_aggr#1": nsub + 1,
+    g = max(m, nsub + 1, 3)
+    return {"h_build_graph#0": g, "h_build_graph#1": g, "h_build_graph#2": g, "h_nd_description#0": g, "h_nd_description#1": g, "h_nd_description#2": g,
+            "h_nd_description#3": g, "h_mk_aggr#0": g, "h_mk_aggr#1": g,
             "sv_layout#0": max(m, nsub + 1), "h_has_named#0": max(m, nsub + 1),
             **{"harness#%d" % k: max(m, nsub + 1, 3) for k in range(8)},
             "sv_classify_agg#0": max(m, nsub + 1), "sv_classify_agg#1": 4, "sv_classify_agg#2": 4, "sv_pass_arg#0": 3, "sv_pass_arg#1": 3,
-            "set_type_layout#0": max(m, nsub + 1), "aux_set_type_align#0": max(m, nsub + 1), "update_members_offset#0": nsub + 1,
+            "set_type_layout#0": max(m, nsub + 1, 3), "aux_set_type_align#0": max(m, nsub + 1, 3), "update_members_offset#0": max(nsub + 1, 3),
             "incomplete_type_p#0": 2, "DLIST_node_t_el#0": 5, "DLIST_node_t_el#1": 5,
             "update_field_layout#0": scan,
             "classify_arg#0": 3, "classify_arg#1": 3, "classify_arg#2": max(m, nsub + 1), "classify_arg#3": 3, "classify_arg#4": 3,
@@ -80,6 +81,7 @@ def witness_defs(mode, shape, kcls, feat, top, nsub, excl, maxsize):
         d["H_W_ARR"] = any(arr)
         d["H_W_NESTED"] = NESTED in cls or NESTED_U in cls
         d["H_W_ANON"] = ANON in cls or ANON_U in cls
+        d["H_W_DEEP"] = bool(feat & F_DEEP) and (NESTED in cls or ANON in cls)
     else:
         # leaf members: (size class, can be a bit-field, array)
         leaves, simple = [], True
@@ -251,6 +253,12 @@ def obligations(tier):
                 obs.append(ob(mode, [T, S], [I, ANY], top, feat=F_BF | F_SUBARR, excl=ex, timeout=to, tag=tg))
         elif mode == 0:
             obs.append(ob(mode, [T, AU, T], [I, ANY, C], 0, excl=ex3, timeout=to, tag=tg))
+        if mode == 0:
+            # second-level anonymous struct {int/unsigned; char} as the last member of the nested / anonymous aggregate (no bit-fields)
+            deep = [([T, A], [I, ANY]), ([T, AU], [C, ANY]), ([T, S], [I, ANY])] + ([] if quick else [([A, T], [ANY, C]), ([T, U], [L, ANY]), ([AU, T], [ANY, I])])
+            for sh, kc in deep:
+                for top in ((0,) if quick else (0, 1)):
+                    obs.append(ob(mode, sh, kc, top, ksub=(I, L), feat=F_DEEP, maxsize=64, timeout=to, tag=".deep-anon"))
     return obs
 
 
